@@ -829,6 +829,38 @@ fn u3_brickcolor() {
     }
 }
 
+//@ obligation: U3.BrickColor.wire
+//@ cost: heavy
+//@ props: C04 C13
+//@ fns: decode_prop_chunk[Type::BrickColor/VariantType::BrickColor]
+//@ kind: bounded
+//@ bound: column of 2 values, any 8 wire bytes (all u32 pairs) / truncated
+//@ checks: functional
+//@ covers: 2
+//@ timeout: 1200
+//@ note: Ok exactly when both big-endian words are numbers of the BrickColor table (values above u16::MAX are rejected, not truncated); then the colours with those numbers come back; everything else is an error, never a panic
+#[kani::proof]
+#[kani::unwind(6)]
+#[kani::stub(alloc::fmt::format, crate::chunk::__verif::fmt_stub)]
+fn u3_brickcolor_wire() {
+    let w: [u8; 8] = kani::any();
+    let n: usize = kani::any();
+    kani::assume(n <= 8);
+    let mut shim = shim2();
+    let r = dec_BrickColor_BrickColor(&w[..n], &TI2, &mut shim);
+    let e = De::new(&w).interleaved_be32::<2>();
+    let c0 = if e[0] <= 0xffff { BrickColor::from_number(e[0] as u16) } else { None };
+    let c1 = if e[1] <= 0xffff { BrickColor::from_number(e[1] as u16) } else { None };
+    assert!(r.is_ok() == (n == 8 && c0.is_some() && c1.is_some()));
+    if r.is_ok() {
+        assert!(out!(shim, 0, Variant::BrickColor(x) => Some(*x) == c0) && out!(shim, 1, Variant::BrickColor(x) => Some(*x) == c1));
+        assert!(once_each(&shim));
+    }
+    kani::cover!(r.is_ok(), "two valid colours reached");
+    kani::cover!(r.is_err(), "invalid or truncated input reached");
+    std::mem::forget(shim);
+}
+
 // ---------------------------------------------------------------- Color3 / Vector2 / Vector3
 //@ obligation: U3.Color3
 //@ cost: heavy
